@@ -769,9 +769,17 @@ Definition c19_ok (t : trans) : bool :=
     && (if oclass_eqb (t_class t) KRej then N.eqb (st_aseq (t_pre t)) (st_aseq (t_post t)) else true)
   end.
 
+(* C02, last sentence: whatever an operation sweeps (the selling escrow when the auction is cancelled or settled,
+   the paying escrow when it is settled) is swept completely: nothing is stranded in escrow *)
+Definition c02_swept (t : trans) : bool :=
+  forallb (fun id => forallb (fun r => forallb (fun d =>
+      if sweeps t r id d then excess (t_post t) r id d =? 0 else true)
+    denoms) roles) (ids_upto (st_aseq (t_post t) + 2)).
+Definition c02_all (t : trans) : bool := c02_ok t && c02_swept t.
+
 (* ---------------------------------------------------------------- all of them *)
 Definition all_checks : list (N * (trans -> bool)) :=
-  [(1%N, c01_ok); (2%N, c02_ok); (3%N, c03_ok); (4%N, c04_ok); (5%N, c05_ok); (6%N, c06_ok); (7%N, c07_ok);
+  [(1%N, c01_ok); (2%N, c02_all); (3%N, c03_ok); (4%N, c04_ok); (5%N, c05_ok); (6%N, c06_ok); (7%N, c07_ok);
    (8%N, c08_ok); (9%N, c09_ok); (10%N, c10_ok); (11%N, c11_ok); (12%N, c12_ok); (13%N, c13_ok);
    (15%N, c15_ok); (16%N, c16_ok); (17%N, c17_ok); (18%N, c18_ok); (19%N, c19_ok)].
 Definition failing (t : trans) : list N :=
